@@ -286,10 +286,8 @@ func leanString(s string) string {
 }
 
 func findFunc(s *srcFile, name string) *ast.FuncDecl {
-	for _, d := range s.f.Decls {
-		if fd, ok := d.(*ast.FuncDecl); ok && fd.Name.Name == name && fd.Body != nil {
-			return fd
-		}
+	if fd := s.funcDecl(name); fd != nil && fd.Body != nil {
+		return fd
 	}
 	return nil
 }
@@ -385,7 +383,7 @@ func genWriteTgzReal() (string, error) {
 			} else {
 				ops = append(ops, ".other "+leanStr(clip(l)))
 			}
-		case regexp.MustCompile(`^\w+:=`+regexp.QuoteMeta(role["cw"])+`\.Count\(\)$`).MatchString(l):
+		case regexp.MustCompile(`^\w+:=` + regexp.QuoteMeta(role["cw"]) + `\.Count\(\)$`).MatchString(l):
 			// size := cw.Count(); alignedSize := (size + 511) & ^uint64(511); increase := alignedSize - size;
 			// if increase > 0 { b := make([]byte, increase); cw.Write(b) }
 			sz := strings.SplitN(l, ":=", 2)[0]
